@@ -260,14 +260,14 @@ def pointwise2(geo, t, x_hat, trial_t, trial_x, x_piece=None):
 
 
 # ---------------------------------------------------------------------------
-def lower_bound_positive(geo, test_t, test_x, trial_t, trial_x):
-    """True if the exact entry provably exceeds 1e-250: |X||Y| * K(r_max) with the time-integrated kernel
-    decreasing in r, evaluated in mpmath."""
+def lower_bound(geo, test_t, test_x, trial_t, trial_x):
+    """Rigorous lower bound (mpmath number) of the exact entry: |X||Y| * K(r_max), the doubly time-integrated kernel
+    being decreasing in the squared distance r."""
     import mpmath as mp
     a, b = test_t
     c, d = trial_t
     if b <= c:
-        return False
+        return mp.mpf(0)
     pi = geo.piece_of(*test_x)
     pj = geo.piece_of(*trial_x)
     rmax = geo.max_dist2(pi, test_x[0], test_x[1], pj, trial_x[0], trial_x[1])
@@ -281,5 +281,9 @@ def lower_bound_positive(geo, test_t, test_x, trial_t, trial_x):
         u = r / (4 * z)
         return z / (4 * mp.pi) * (mp.e**(-u) - (u + 1) * mp.e1(u))
     val = F(b - d) - F(b - c) + F(a - c) - F(a - d)
-    bound = val * (test_x[1] - test_x[0]) * (trial_x[1] - trial_x[0])
-    return bound > mp.mpf('1e-250')
+    return val * (test_x[1] - test_x[0]) * (trial_x[1] - trial_x[0])
+
+
+def lower_bound_positive(geo, test_t, test_x, trial_t, trial_x):
+    import mpmath as mp
+    return lower_bound(geo, test_t, test_x, trial_t, trial_x) > mp.mpf('1e-250')
